@@ -40,6 +40,7 @@ SWITCH_KINDS = {
 
 class C11(object):
     id = 'C11'
+    anchors = ('EquationSolver._SolveStep', 'EquationParser.ValidateInputs', 'Model._AddCountry', 'Country._AddSector', 'Market._SearchSupplier', 'Model._GenerateRegisteredCashFlows')
     title = 'Unsolvable or invalid input fails loudly and in bounded work'
     exhaustive = False
     rule = ('case kinds: (a) switch - a system that is benign up to a drawn period and is then switched through an '
